@@ -153,3 +153,24 @@ Proof.
   intros t l. split; [exact (label_to_raw_sound t l)|].
   split; [exact (label_to_raw_complete t l) | exact (label_to_raw_unique t l)].
 Qed.
+
+(* a str argument that is a label converts to its key whatever decimal.Decimal would make of the text:
+   the table scan takes precedence over numeric parsing; a text that is no label is parsed *)
+Lemma label_precedes_parsing : forall s text parsed,
+  (forall k, In (k, text) (sc_values s) ->
+     exists k', phys2raw_arg s (PStr text parsed) = Some k' /\ In (k', text) (sc_values s)) /\
+  (forall k, NoDup (labels (sc_values s)) -> In (k, text) (sc_values s) ->
+     phys2raw_arg s (PStr text parsed) = Some k) /\
+  (~ In text (labels (sc_values s)) ->
+     phys2raw_arg s (PStr text parsed) = match parsed with Some v => phys2raw_num s v | None => None end).
+Proof.
+  intros s text parsed. unfold phys2raw_arg, phys2raw_label. split; [|split].
+  - intros k H. destruct (sc_values s) as [|x r] eqn:E; [contradiction|]. rewrite <- E in *.
+    destruct (label_to_raw_complete _ _ _ H) as [k' Hk']. rewrite Hk'. exists k'. split; [reflexivity|].
+    apply label_to_raw_sound. exact Hk'.
+  - intros k Hnd H. destruct (sc_values s) as [|x r] eqn:E; [contradiction|]. rewrite <- E in *.
+    rewrite (label_to_raw_unique _ _ _ Hnd H). reflexivity.
+  - intros Hnot. destruct (sc_values s) as [|x r] eqn:E; [reflexivity|]. rewrite <- E in *.
+    destruct (label_to_raw (sc_values s) text) as [k|] eqn:El; [|reflexivity].
+    exfalso. apply Hnot. apply label_to_raw_sound in El. change text with (snd (k, text)). apply in_map. exact El.
+Qed.
